@@ -26,7 +26,7 @@ MASK = '<<ignored>>'
 DEFAULT_POOL = [1, 'v', None, 2.5, (1, 2), 0]
 
 
-def gen_spec(rng, allow_kwonly=True, allow_var=True, allow_kw=True):
+def gen_spec(rng, allow_kwonly=True, allow_var=True, allow_kw=True, hostile_names=None):
     nreq = rng.choice([0, 1, 1, 2, 3])
     ndef = rng.choice([0, 0, 1, 2])
     if nreq + ndef == 0 and rng.random() < 0.6:
@@ -42,6 +42,9 @@ def gen_spec(rng, allow_kwonly=True, allow_var=True, allow_kw=True):
             else:
                 kwonly.append([n, False, None])
     kw = allow_kw and rng.random() < 0.35
+    if hostile_names and req and rng.random() < 0.15:
+        # parameter names that klepto's own machinery also uses for its parameters
+        req[0] = rng.choice(hostile_names)
     return {'req': req, 'def': dfl, 'var': var, 'kwonly': kwonly, 'kw': kw}
 
 
@@ -505,7 +508,7 @@ def gen_case(rng, prop):
     kind = rng.choice(['func', 'func', 'func', 'method', 'partial', 'sibling', 'bound', 'boundcls'])
     if prop == 'C12':
         kind = rng.choice(['func', 'func', 'method'])
-    spec = gen_spec(rng)
+    spec = gen_spec(rng, hostile_names=(['self', 'func', 'ignored'] if kind in ('func', 'sibling', 'partial') else None))
     if kind in ('method', 'bound') and rng.random() < 0.3:
         spec['_falsy'] = True        # the instance is "empty" (__len__() == 0): still an instance
     if prop == 'C10' and rng.random() < 0.15:
@@ -706,6 +709,17 @@ def _same(a, b):
         return False
 
 
+def _legit_key_failure(case, c, tgt=None, exc=None):
+    """may building the key legitimately fail for this call?  python's hash() of an unhashable argument; a
+    serializer that cannot pickle the instance a method is called on (the harness's classes are not importable)"""
+    if tgt is not None and tgt.kind == 'method' and 'self' not in (case.get('ignore') or []) \
+            and case['keymap']['cls'] == 'picklemap' and 'ickl' in type(exc).__name__:
+        return True
+    if gen.key_kind(case['keymap']) != 'int':
+        return False
+    return not all(_hashable(v) for v in list(c[0]) + list(c[1].values()))
+
+
 def behaviour(J, tgt, case, first, second, own_deco=False):
     """fresh cache: call `first` then `second`; -> (evaluations of second, result of second)"""
     c2 = dict(case)
@@ -841,6 +855,11 @@ def check_equiv(J, tgt, f, kg, c1, c2, extra_mech=()):
         if (ks1 is None) != (ks2 is None):
             J.bad('C09', 'key-raises-for-one-spelling',
                   'key() raised for one spelling only: %s vs %s: %r / %r' % (srepr(c1), srepr(c2), e1, e2))
+        elif not _legit_key_failure(case, c1, tgt, e1):
+            # a valid call with plain arguments has no key at all (so it can never be served from the cache)
+            J.bad('C09', 'key-raises-for-valid-call',
+                  '%s %s: key() raises %s: %s for the valid call %s' % (tgt.kind, spec_src(case['spec']),
+                                                                      type(e1).__name__, str(e1)[:120], srepr(c1)))
         return
     for which, (x, y) in (('f.key', (ks1[0], ks2[0])), ('keygen', (ks1[1], ks2[1]))):
         if not _same(x, y):
@@ -1096,7 +1115,10 @@ def judge_ignore(J, tgt, f, kg, rng, spec, asg, fixed, pool):
                               % (ign, srepr(c1), srepr(c2), slot))
                 except TypeError:
                     pass
-                if gen.key_kind(case['keymap']) == 'raw' and rng.random() < 0.15:
+                if gen.key_kind(case['keymap']) == 'raw' and rng.random() < 0.15 and \
+                        not (tgt.kind == 'method' and 'self' not in ign):
+                    # (a method whose instance is part of the key: the instance compares by identity, so a pickled
+                    # copy of the key can never match - that is the user's object, not klepto)
                     # the shared entry must also be found again after it went through an archive that pickles
                     # its keys (the placeholder klepto puts in place of an ignored argument is an object)
                     try:
